@@ -64,6 +64,13 @@ def direct(cx, n=2, ncols=1, method=None, opkind="dense", withE=False, withM=Fal
         Mop = LinearOperator.m(M, is_hermitian=True)
     A, Amat = build_operator(opkind, mats)
     kw = {} if method is None else {"method": method}
+    if not cx.symbolic:
+        # seeded concrete inputs: skip (nearly) singular systems, where float64 and exact arithmetic legitimately disagree
+        with torch.no_grad():
+            Ab = Amat.expand(*torch.broadcast_shapes(ba, be if withE else (), bm if (withE and withM) else ()), n, n)
+            for j in range(ncols):
+                Kj = Ab if E is None else Ab - E[..., j][..., None, None] * (M if M is not None else torch.eye(n, dtype=Amat.dtype))
+                cx.assume(torch.all(torch.linalg.det(Kj).abs() > 1e-3), note="A - e_j M well away from singular on concrete inputs")
     with torch.no_grad():
         X = solve(A, B, E, Mop, **kw)
     bshape = torch.broadcast_shapes(ba, bb, be if withE else (), bm if (withE and withM) else ())
